@@ -82,8 +82,13 @@ def progPl : List HOp :=
    .fresh 17 [0], .fresh 18 [1], .fresh 19 [17, 18], .inplace 13 [19]]
 
 /-- `Hedger.compute_hedge`, batched branch: `input = cat(features); output = model(input);
-output[..., -1, :] = output[..., -2, :]; output.transpose(-1,-2)` -/
+output = cat(output[..., :-1, :], output[..., [-2], :]); output.transpose(-1,-2)` (out of place since the
+`fix:` commit 70a9f74; before it the last step was written in place, `progHedgeBatchedOld`) -/
 def progHedgeBatched : List HOp :=
+  [.view 10 0, .fresh 11 [10], .fresh 12 [11], .fresh 13 [12], .view 14 13, .fresh 16 [13], .fresh 17 [14, 16], .view 15 17]
+
+/-- the batched branch as shipped before 70a9f74: `output[..., -1, :] = output[..., -2, :]` in place -/
+def progHedgeBatchedOld : List HOp :=
   [.view 10 0, .fresh 11 [10], .fresh 12 [11], .fresh 13 [12], .view 14 13, .inplace 13 [14], .view 15 13]
 
 /-- `Hedger.compute_hedge`, stepwise branch: per step `cat`, forward, hook `register_buffer
@@ -118,18 +123,23 @@ def resultFresh (p : List HOp) (v : Var) : Bool := (ownedAfter [] p).contains v
 may be views of buffers, the concatenation is a new storage -/
 def progGetInput : List HOp := [.view 10 0, .view 11 1, .fresh 12 [10, 11]]
 
-/-- `compute_hedge` (batched) with a user model that RETURNS ITS INPUT (`torch.nn.Identity`): the
-in-place `output[..., -1, :] = output[..., -2, :]` then lands in the `cat` storage -/
+/-- `compute_hedge` (batched) with a user model that RETURNS ITS INPUT (`torch.nn.Identity`): the last-step
+fix-up concatenates views of the `cat` storage into a new one -/
 def progHedgeBatchedIdentity : List HOp :=
-  [.view 10 0, .fresh 11 [10], .view 12 11, .view 14 12, .inplace 12 [14], .view 15 12]
+  [.view 10 0, .fresh 11 [10], .view 12 11, .view 14 12, .fresh 16 [12], .fresh 17 [14, 16], .view 15 17]
 
 /-- `compute_hedge` (batched) with a user model that writes its input in place (`ReLU(inplace=True)`
-as first layer) -/
+as first layer, `x.mul_(…)`) -/
 def progHedgeBatchedInplaceModel : List HOp :=
-  [.view 10 0, .fresh 11 [10], .inplace 11 [], .view 12 11, .view 14 12, .inplace 12 [14], .view 15 12]
+  [.view 10 0, .fresh 11 [10], .inplace 11 [], .view 12 11, .view 14 12, .fresh 16 [12], .fresh 17 [14, 16], .view 15 17]
 
 /-- the same computation if `FeatureList.get` skipped the concatenation for a single feature (a
-rewrite that looks harmless at that site): the model input is then a view of the buffer -/
+rewrite that looks harmless at that site): the model input is then a view of the buffer, and a model
+that writes its input in place writes the buffer -/
+def progHedgeShortcutInplaceModel : List HOp :=
+  [.view 10 0, .view 11 10, .inplace 11 [], .view 12 11, .view 14 12, .fresh 16 [12], .fresh 17 [14, 16], .view 15 17]
+
+/-- … and before 70a9f74 even the identity model did, through `compute_hedge`'s own in-place last-step write -/
 def progHedgeShortcutIdentity : List HOp :=
   [.view 10 0, .view 11 10, .view 12 11, .view 14 12, .inplace 12 [14], .view 15 12]
 
